@@ -88,10 +88,11 @@ type Model struct {
 	prov    *big.Rat   // current epoch provisions
 	lastRed int64      // epoch of the last reduction (or the start epoch; 0 at genesis)
 	carry   *big.Int   // balance left in the pool-incentives module account
+	vest    *big.Int   // balance of the developer vesting account (pre-minted at genesis, never refilled)
 }
 
 func NewModel(c Config) *Model {
-	m := &Model{cfg: c, factor: parseDec(c.Factor), prov: parseDec(c.Provision), carry: bi(0)}
+	m := &Model{cfg: c, factor: parseDec(c.Factor), prov: parseDec(c.Provision), carry: bi(0), vest: bi(developerVestingAmount)}
 	for i := range c.Prop {
 		m.prop[i] = parseDec(c.Prop[i])
 	}
@@ -111,6 +112,11 @@ func NewModel(c Config) *Model {
 // Expect is what the statement requires of one epoch.
 type Expect struct {
 	Active  bool // epoch >= start epoch
+	// Refused: the developer vesting account (a fixed pre-minted amount) no longer covers this epoch's developer share.
+	// The module documents that it refuses the whole epoch then (insufficientDevVestingBalanceError; x/epochs reverts the
+	// hook): nothing is minted and no state changes. An epoch is refused ONLY in that case; in particular a vesting
+	// balance below the whole provision that still covers the developer share must mint.
+	Refused bool
 	Reduced bool // the provision is multiplied by the factor at this epoch
 	P       *big.Int
 	S, I, D *big.Int
@@ -139,6 +145,7 @@ func (m *Model) Step(n int64) *Expect {
 	}
 	if n >= c.Start {
 		e.Active = true
+		savedProv, savedRed := m.prov, m.lastRed
 		if n == c.Start {
 			m.lastRed = n
 		}
@@ -152,6 +159,12 @@ func (m *Model) Step(n int64) *Expect {
 		e.S = share(e.P, m.prop[0])
 		e.I = share(e.P, m.prop[1])
 		e.D = share(e.P, m.prop[2])
+		if m.vest.Cmp(e.D) < 0 {
+			m.prov, m.lastRed = savedProv, savedRed
+			z := &Expect{Active: true, Refused: true, P: bi(0), S: bi(0), I: bi(0), D: bi(0), DevPaid: bi(0), R: bi(0), PIToCommunity: bi(0), PIModule: bi(0), Community: bi(0),
+				Dev: e.Dev, Gauges: e.Gauges, Prov: new(big.Rat).Set(m.prov), LastRed: m.lastRed}
+			return z
+		}
 		toReceivers := bi(0)
 		if len(c.Receivers) == 0 {
 			e.DevPaid.Set(e.D) // whole developer share to the community pool
@@ -164,6 +177,7 @@ func (m *Model) Step(n int64) *Expect {
 			}
 		}
 		e.R.Sub(e.D, e.DevPaid)
+		m.vest = new(big.Int).Sub(m.vest, e.DevPaid)
 		// pool incentives: the hook allocates the module's whole balance
 		asset := new(big.Int).Add(m.carry, e.I)
 		if asset.Sign() > 0 {
